@@ -40,6 +40,198 @@ def run(ctx):
     ctx.attempt(_r1)
     ctx.attempt(_r2)
     ctx.attempt(_r3)
+    ctx.attempt(_r4)
+    ctx.attempt(_r5)
+
+
+LOAD_ATTRS = ("load", "finite_infinite_transition", "fatigue_limit", "fractured_loads", "mixed_loads", "runout_loads",
+              "non_fractured_loads", "SD")
+LOAD_KEYS = ("SD", "SD_50", "load")
+
+
+class LoadTyping:
+    """Which expressions carry the unit of the load (scale with the load axis)?"""
+
+    def __init__(self, prog, modules):
+        self.prog = prog
+        self.modules = modules
+        self.param = {}      # (func key, param) -> True
+
+    def is_load(self, e, env):
+        if isinstance(e, ast.Name):
+            return env.get(e.id, False)
+        if isinstance(e, ast.Attribute):
+            return e.attr in LOAD_ATTRS or (e.attr in ("values", "iloc", "loc") and self.is_load(e.value, env))
+        if isinstance(e, ast.Subscript):
+            if isinstance(const_value(e.slice), str):
+                return const_value(e.slice) in LOAD_KEYS
+            return self.is_load(e.value, env)
+        if isinstance(e, ast.Call):
+            fn = call_name(e) or ""
+            if fn in ("np.asarray", "np.array", "float", "np.abs", "abs", "np.max", "np.min", "max", "min", "np.maximum",
+                      "np.minimum", "np.clip", "np.unique", "np.sort", "np.mean", "np.median"):
+                return any(self.is_load(a, env) for a in e.args)
+            if isinstance(e.func, ast.Attribute) and e.func.attr in ("max", "min", "mean", "median", "unique", "to_numpy",
+                                                                      "astype", "copy", "abs", "clip"):
+                return self.is_load(e.func.value, env)
+            return False
+        if isinstance(e, ast.BinOp) and isinstance(e.op, (ast.Add, ast.Sub)):
+            return self.is_load(e.left, env) or self.is_load(e.right, env)
+        if isinstance(e, ast.IfExp):
+            return self.is_load(e.body, env) or self.is_load(e.orelse, env)
+        return False
+
+    def env_of(self, fi):
+        env = {p_: True for p_ in fi.params if self.param.get((fi.key, p_))}
+        for p_ in fi.params:
+            if p_ in ("SD", "SD_50", "SD_start", "load", "loads", "fatigue_limit", "finite_infinite_transition"):
+                env[p_] = True
+        for _ in range(2):
+            for st in walk_stmts(fi.node.body):
+                if isinstance(st, ast.Assign):
+                    for t, v in tuple_assign_pairs(st):
+                        if isinstance(t, ast.Name) and self.is_load(v, env):
+                            env[t.id] = True
+        return env
+
+    def run(self):
+        funcs = [fi for fi in self.prog.functions.values() if fi.module.name in self.modules]
+        for _ in range(3):
+            for fi in funcs:
+                env = self.env_of(fi)
+                for c in calls_in(fi.node):
+                    for key in self.prog.resolve_call(fi, c):
+                        callee = self.prog.functions.get(key)
+                        if callee is None:
+                            continue
+                        ps = [q for q in callee.params if q not in ("self", "cls")]
+                        for i, a in enumerate(c.args):
+                            if i < len(ps) and self.is_load(a, env):
+                                self.param[(callee.key, ps[i])] = True
+                        for k in c.keywords:
+                            if k.arg in ps and self.is_load(k.value, env):
+                                self.param[(callee.key, k.arg)] = True
+        return funcs
+
+    def sinks(self, fi):
+        """(node, text, ok) for every place where a load-typed value meets a numeric constant in a comparison or clamp"""
+        env = self.env_of(fi)
+        out = []
+
+        def num(e):
+            v = const_value(e)
+            if isinstance(e, ast.UnaryOp) and isinstance(e.op, ast.USub):
+                v = const_value(e.operand)
+                v = -v if isinstance(v, (int, float)) else None
+            return v if isinstance(v, (int, float)) and not isinstance(v, bool) else None
+        for n in ast.walk(fi.node):
+            if isinstance(n, ast.Compare) and len(n.ops) == 1:
+                l, r = n.left, n.comparators[0]
+                for a, b in ((l, r), (r, l)):
+                    if self.is_load(a, env) and num(b) is not None:
+                        out.append((n, norm_text(n), num(b) == 0))
+            elif isinstance(n, ast.Call):
+                fn = call_name(n) or ""
+                args = list(n.args) + [k.value for k in n.keywords if k.arg in ("a_min", "a_max", "lower", "upper")]
+                is_clamp = fn in ("max", "min", "np.maximum", "np.minimum", "np.clip", "np.fmax", "np.fmin") or \
+                    (isinstance(n.func, ast.Attribute) and n.func.attr == "clip")
+                recv = [n.func.value] if isinstance(n.func, ast.Attribute) and n.func.attr == "clip" else []
+                if is_clamp and any(self.is_load(a, env) for a in args + recv):
+                    for a in args:
+                        if num(a) is not None:
+                            out.append((n, norm_text(n), num(a) == 0))
+        return out
+
+
+def _r4(ctx):
+    """Load-scale equivariance, structural part: a value that carries the unit of the load is compared or clamped only
+    against other load-typed values or against zero.  A non-zero numeric threshold (max(SD, 0.1), SD < 1e-3, clip) makes the
+    result depend on the unit the loads are given in."""
+    prog = ctx.prog
+    ctx.rule("R-C18-4", floor=2, what="load-typed values meet numeric constants only as comparisons with zero")
+    lt = LoadTyping(prog, MODS)
+    funcs = lt.run()
+    n = 0
+    typed = 0
+    for fi in funcs:
+        typed += len(lt.env_of(fi))
+        for node, text, ok in lt.sinks(fi):
+            n += 1
+            if ok:
+                ctx.holds(fi, node, "%s: load-typed value compared with zero only (%s)" % (fi.name, text))
+            else:
+                ctx.violated(fi, node, "%s: %s compares or clamps a value that carries the load unit against a non-zero number: "
+                             "the analysis result changes when all loads are given in another unit (scaled)" % (fi.name, text),
+                             text=text)
+    ctx.holds(MODS[0], None, "%d load-typed locals/parameters traced over %d functions" % (typed, len(funcs)), {"typed": typed})
+    # positive example: the rule fires on a clamp and stays silent on the zero test
+    from ..frontend import Program as _P
+    src = ("class A:\n    def f(self):\n        x = self._fd.finite_infinite_transition\n        if x == 0:\n            x = 0.1\n"
+           "        return max(x, 0.1)\n")
+    p2 = _mini_program(src)
+    lt2 = LoadTyping(p2, ["ex"])
+    lt2.run()
+    got = sorted(ok for _, _, ok in lt2.sinks(p2.functions["ex:A.f"]))
+    if got != [False, True]:
+        raise AnalysisError("load typing positive example failed: %s" % got)
+    ctx.holds("selftest:positive-example", None, "load typing fires on max(x, 0.1) and accepts x == 0 in the built-in example")
+
+
+def _mini_program(src):
+    import ast as _a
+    tree = set_parents(_a.parse(src))
+    p = object.__new__(Program)
+    p.root, p.overrides, p._base = "", {}, None
+    p.modules = {"ex": Module("ex", "ex.py", src, tree, "0")}
+    p.modules["ex"].pysource = src
+    p.functions, p.classes, p.accessors, p._subclasses = {}, {}, {}, {}
+    p._index()
+    return p
+
+
+def _r5(ctx):
+    """No state leaks between analyses: no analysis function writes into one of its arguments (in particular not into a
+    mutable default argument, which is shared by all later calls)."""
+    from ..effects import Effects
+    prog = ctx.prog
+    ctx.rule("R-C18-5", floor=20, what="analysis functions do not write into their arguments; mutable defaults are never written")
+    eff = Effects(prog)
+    mods = [m for m in MODS if m.startswith(PKG)]
+    n = 0
+    for key, fi in sorted(prog.functions.items()):
+        if fi.module.name not in mods or fi.parent is not None:
+            continue
+        summ = eff.summary(fi)
+        if summ is None:
+            raise AnalysisError("no effect summary for %s" % key)
+        n += 1
+        a = fi.node.args
+        pos = a.posonlyargs + a.args
+        defaults = dict(zip([x.arg for x in pos[len(pos) - len(a.defaults):]], a.defaults))
+        defaults.update({x.arg: d for x, d in zip(a.kwonlyargs, a.kw_defaults) if d is not None})
+        mutable = {k for k, d in defaults.items() if isinstance(d, (ast.Dict, ast.List, ast.Set)) or
+                   (isinstance(d, ast.Call) and call_name(d) in ("dict", "list", "set"))}
+        # caller-provided arguments: everything a public method receives, and what analyze(**kwargs) forwards to the
+        # analysis hook (its first argument is the internally built result series)
+        if not fi.name.startswith("_") or fi.name == "__init__":
+            user = set(fi.params)
+        elif fi.name == "_specific_analysis":
+            user = set(fi.params[2:]) | {x.arg for x in a.kwonlyargs} | ({a.kwarg.arg} if a.kwarg else set())
+        else:
+            user = set()
+        bad = [e for e in summ["effects"] if e.origin[0] in ("param", "elem") and (e.origin[1] in mutable or e.origin[1] in user)]
+        if not bad:
+            ctx.holds(fi, fi.node, "%s: no write reaches an argument%s" % (fi.name, " (mutable default: %s)" % ", ".join(sorted(mutable)) if mutable else ""))
+        for e in bad:
+            node = fi.node
+            for st in walk_function(fi.node):
+                if isinstance(st, ast.stmt) and getattr(st, "lineno", None) == e.lineno:
+                    node = st
+                    break
+            ctx.violated(fi, node, "%s writes into its argument %s (%s)%s: the caller's object - and with a mutable default every "
+                         "later analysis in the process - sees the change, so analysing the same data again gives another result"
+                         % (fi.name, e.origin[1], e.kind, ", a mutable default" if e.origin[1] in mutable else ""),
+                         text="%s %s" % (e.kind, e.origin[1]))
 
 
 def _r1(ctx):
@@ -203,6 +395,26 @@ PB = "src/pylife/materialdata/woehler/probit.py"
 
 def variants():
     out = []
+
+    def clamp_transition(tree):
+        f = find_func(tree, "Elementary._transition_cycles")
+        f.body = [parse_stmt("finite_infinite_transition = max(finite_infinite_transition, 0.1)")] + \
+            [x for x in f.body if isinstance(x, ast.Return)]
+        return True
+    out.append(witness("transition load clamped at 0.1", "src/pylife/materialdata/woehler/elementary.py", clamp_transition, "R-C18-4"))
+
+    def default_written(tree):
+        f = find_func(tree, "MaxLikeFull.__max_likelihood_full")
+        for n in ast.walk(f):
+            if isinstance(n, ast.FunctionDef) and n.name == "warn_and_fix_if_less_than_two_mixed_levels":
+                blk = [x for x in n.body if isinstance(x, ast.If)][0]
+                blk.body = [x for x in blk.body if not (isinstance(x, ast.Assign) and "copy" in ast.unparse(x))]
+                blk.body = [x if not (isinstance(x, ast.Expr) and "update" in ast.unparse(x)) else parse_stmt("fixed_prms['TS'] = TS")
+                            for x in blk.body]
+                return True
+        return False
+    out.append(witness("fallback scatter written into the shared default dict", "src/pylife/materialdata/woehler/maxlike.py",
+                       default_written, "R-C18-5"))
 
     def no_sort(tree):
         f = find_func(tree, "PearlChainProbability.__init__")
